@@ -1,0 +1,35 @@
+//go:build verif
+
+// Contracts for package eval, checked by /verif/govc (comment-only; compiled only under tag verif).
+package eval
+
+//@ define isInt(o) = isType(o, object.Integer)
+//@ define intVal(o) = o.(object.Integer).Value
+//@ define isErr(o) = isType(o, object.Error)
+
+//@ func (*State).NewError
+//@   modifies *
+//@   nosafety
+//@   ensures  result.Value == msg
+//@   property C01 C07
+
+//@ func (*State).evalIntegerInfixExpression
+//@   arith bv
+//@   requires s != nil
+//@   modifies *
+//@   maypanic would exceed memory
+//@   ensures  plus:: implies(operator == token.PLUS, isInt(result) && intVal(result) == leftVal + rightVal)
+//@   ensures  minus:: implies(operator == token.MINUS, isInt(result) && intVal(result) == leftVal - rightVal)
+//@   ensures  times:: implies(operator == token.ASTERISK, isInt(result) && intVal(result) == leftVal * rightVal)
+//@   ensures  quo:: implies(operator == token.SLASH && rightVal != 0, isInt(result) && intVal(result) == leftVal / rightVal)
+//@   ensures  rem:: implies(operator == token.PERCENT && rightVal != 0, isInt(result) && intVal(result) == leftVal % rightVal)
+//@   ensures  divzero:: implies((operator == token.SLASH || operator == token.PERCENT) && rightVal == 0, isErr(result))
+//@   ensures  shl:: implies(operator == token.LEFTSHIFT && rightVal >= 0, isInt(result) && intVal(result) == leftVal << rightVal)
+//@   ensures  shr:: implies(operator == token.RIGHTSHIFT && rightVal >= 0, isInt(result) && intVal(result) == int64(uint64(leftVal) >> uint64(rightVal)))
+//@   ensures  negshift:: implies((operator == token.LEFTSHIFT || operator == token.RIGHTSHIFT) && rightVal < 0, isErr(result))
+//@   ensures  and:: implies(operator == token.BITAND, isInt(result) && intVal(result) == leftVal & rightVal)
+//@   ensures  or:: implies(operator == token.BITOR, isInt(result) && intVal(result) == leftVal | rightVal)
+//@   ensures  xor:: implies(operator == token.BITXOR, isInt(result) && intVal(result) == leftVal ^ rightVal)
+//@   ensures  badrange:: implies(operator == token.COLON && rightVal < leftVal, isErr(result))
+//@   ensures  unknown:: implies(operator != token.PLUS && operator != token.MINUS && operator != token.ASTERISK && operator != token.SLASH && operator != token.PERCENT && operator != token.LEFTSHIFT && operator != token.RIGHTSHIFT && operator != token.BITAND && operator != token.BITOR && operator != token.BITXOR && operator != token.COLON, isErr(result))
+//@   property C01 C07
